@@ -52,6 +52,9 @@ func (w *rrWorld) applyCoarse(op *rrOp, where string) {
 		if !contains(pos, op.outKey) {
 			r.Fail("routed-outside-pool", "%s: %s selected %s, positive-weight members are %v (model %s)", where, op.kind, op.outKey, pos, w.model.encode())
 		}
+		if op.kind == "serve" && w.listener && op.invoked && op.listened != 1 {
+			r.Fail("rewrite-listener", "%s: the request was forwarded and the configured request-rewrite listener was told %d times", where, op.listened)
+		}
 		if op.kind == "serve" && op.status != http.StatusOK {
 			r.Fail("client-request-altered", "%s: status %d (-1 = the client's request URL was modified)", where, op.status)
 		}
